@@ -51,21 +51,22 @@ type c17Mix struct {
 	// quick: two getters on every transaction, one of the four other 2-thread mixes in rotation on every
 	// transaction with two signature sets, every mix on the transactions with 3 and 4 sets
 	Quick func(nsets int, idx int) bool
-	// three-thread mix: preemption bound 2 on both tiers; on the thorough tier it runs on the 3- and 4-set
-	// transactions and on every 8th two-set transaction
+	// three-thread mix: on the thorough tier it runs on the 3- and 4-set transactions and on every 8th two-set transaction
 	Three bool
+	// preemption bound 2 on both tiers (mixes with many scheduling points)
+	Bound2 bool
 }
 
 func (m c17Mix) name() string { return strings.Join(m.Threads, "+") }
 
 var c17Mixes = []c17Mix{
-	{[]string{c17Getter, c17Getter}, func(nsets, idx int) bool { return true }, false},
-	{[]string{c17Getter, c17Witness}, func(nsets, idx int) bool { return nsets >= 3 || (nsets == 2 && idx%4 == 3) }, false},
-	{[]string{c17Witness, c17Witness}, func(nsets, idx int) bool { return nsets >= 3 || (nsets == 2 && idx%4 == 0) }, false},
-	{[]string{c17Getter, c17Validator}, func(nsets, idx int) bool { return nsets >= 3 || (nsets == 2 && idx%4 == 1) }, false},
-	{[]string{c17Witness, c17Validator}, func(nsets, idx int) bool { return nsets >= 3 || (nsets == 2 && idx%4 == 2) }, false},
-	{[]string{c17Getter, c17Getter, c17Getter}, func(nsets, idx int) bool { return nsets >= 3 }, true},
-	{[]string{c17Getter, c17Witness, c17Validator}, func(nsets, idx int) bool { return nsets >= 3 }, true},
+	{[]string{c17Getter, c17Getter}, func(nsets, idx int) bool { return true }, false, false},
+	{[]string{c17Getter, c17Witness}, func(nsets, idx int) bool { return nsets >= 3 || (nsets == 2 && idx%4 == 3) }, false, false},
+	{[]string{c17Witness, c17Witness}, func(nsets, idx int) bool { return nsets >= 3 || (nsets == 2 && idx%4 == 0) }, false, true},
+	{[]string{c17Getter, c17Validator}, func(nsets, idx int) bool { return nsets >= 3 || (nsets == 2 && idx%4 == 1) }, false, false},
+	{[]string{c17Witness, c17Validator}, func(nsets, idx int) bool { return nsets >= 3 || (nsets == 2 && idx%4 == 2) }, false, false},
+	{[]string{c17Getter, c17Getter, c17Getter}, func(nsets, idx int) bool { return nsets >= 3 }, true, true},
+	{[]string{c17Getter, c17Witness, c17Validator}, func(nsets, idx int) bool { return nsets >= 3 }, true, true},
 }
 
 // c17SchedCases: the transaction alphabet of unit witness, plus transactions
@@ -271,7 +272,7 @@ func TestVerif_C17_sched(t *testing.T) {
 	r := vh.Start(t, "C17", "sched")
 	defer r.Finish()
 	bound := r.Pick(2, 3)
-	r.Rule("every transaction of unit witness' alphabet (plus 3- and 4-set transactions) is decoded, never validated, and handed to 2-3 real goroutines (getter = Transaction.GetSignatureAddresses, witness = SmartContract.CheckWitness for every validated signer and the zero address, validator = VerifyTransaction on the shared object); every statement of GetSignatureAddresses is a scheduling point (instrumented copy through the overlay); every schedule with at most B preemptions (two threads: B=2 quick, 3 thorough; three threads: B=2) is executed on a fresh object; in every final state each caller must have seen exactly the signer set the validator established on a separate decode, and so must a later caller; traces = complete executions, transitions = scheduling decisions; classes = whether derivations overlapped")
+	r.Rule("every transaction of unit witness' alphabet (plus 3- and 4-set transactions) is decoded, never validated, and handed to 2-3 real goroutines (getter = Transaction.GetSignatureAddresses, witness = SmartContract.CheckWitness for every validated signer and the zero address, validator = VerifyTransaction on the shared object); every statement of GetSignatureAddresses is a scheduling point (instrumented copy through the overlay); every schedule with at most B preemptions (B=2 quick, 3 thorough; witness+witness and the three-thread mixes: B=2 on both tiers) is executed on a fresh object; in every final state each caller must have seen exactly the signer set the validator established on a separate decode, and so must a later caller; traces = complete executions, transitions = scheduling decisions; classes = whether derivations overlapped")
 	r.Assume("statements of GetSignatureAddresses are atomic and memory is sequentially consistent (Go-memory-model data races are not judged here); VerifyTransaction is one atomic step (it shares only its final store of SignedAddr with the other callers)")
 
 	var last *c17Inst
@@ -330,8 +331,8 @@ func TestVerif_C17_sched(t *testing.T) {
 				continue
 			}
 			b := bound
-			if mix.Three {
-				b = 2 // three threads: preemption bound 2 on both tiers
+			if mix.Bound2 {
+				b = 2
 			}
 			e := c17Explorer(r, raw, mix.Threads, want, b, &last)
 			e.Run()
@@ -377,6 +378,6 @@ func TestVerif_C17_sched(t *testing.T) {
 	for _, n := range names {
 		r.Add("schedules/"+n, perMix[n])
 	}
-	r.Bound(fmt.Sprintf("%d transactions (<=4 signature sets), %d caller mixes of 2-3 goroutines, preemption bound %d (three threads: 2), scheduling points = statements of Transaction.GetSignatureAddresses", len(cases), len(c17Mixes), bound))
+	r.Bound(fmt.Sprintf("%d transactions (<=4 signature sets), %d caller mixes of 2-3 goroutines, preemption bound %d (witness+witness and three threads: 2), scheduling points = statements of Transaction.GetSignatureAddresses", len(cases), len(c17Mixes), bound))
 	r.Need(accepted > 0 && (len(found) > 0 || execs > int64(2*scenarios)), "no interleaving explored (accepted=%d scenarios=%d executions=%d): is core/types/transaction.go instrumented?", accepted, scenarios, execs)
 }
